@@ -17,4 +17,5 @@ Definition E131_STREAM_TERMINATED_MASK : N := 64.
 Definition VECTOR_E131_DATA : N := 2.
 Definition ARTNET_MAX_MERGE_SOURCES : N := 2.
 Definition ARTNET_MERGE_TIMEOUT : N := 10.
+Definition ARTNET_MAX_PORTS : N := 4.
 Definition EXPIRY_INTERVAL_US : N := 2500000.
